@@ -1,4 +1,96 @@
-// engine K harnesses for module hook 'agg' (included under cfg(kani) by /repo)
+// engine K — protocol/hybrid/agg.rs (property C01: only match keys with exactly two reports form a pair)
+use super::*;
+use crate::{
+    ff::{
+        U128Conversions,
+        boolean_array::{BA3, BA8},
+    },
+    secret_sharing::{SharedValue, replicated::ReplicatedSecretSharing},
+};
+
+fn rep(tag: u8) -> AggregateableHybridReport<BA8, BA3> {
+    AggregateableHybridReport {
+        match_key: (),
+        value: Replicated::new(BA3::ZERO, BA3::ZERO),
+        breakdown_key: Replicated::new(BA8::truncate_from(u128::from(tag)), BA8::ZERO),
+    }
+}
+fn tag(r: &AggregateableHybridReport<BA8, BA3>) -> u128 {
+    r.breakdown_key.left().as_u128()
+}
+
+/// MatchEntry state machine: after k >= 1 reports, into_pair() is Some([first, second]) iff k == 2
+/// (k = 3, 4 cover Pair -> MoreThanTwo and MoreThanTwo -> MoreThanTwo; the transition function has no other state).
+#[kani::proof]
+#[kani::unwind(10)]
+fn c01_match_entry() {
+    let k: u8 = kani::any();
+    kani::assume(k >= 1 && k <= 4);
+    kani::cover!(k == 2);
+    kani::cover!(k == 4);
+    let mut e = MatchEntry::Single(rep(1));
+    if k >= 2 {
+        e.add_report(rep(2));
+    }
+    if k >= 3 {
+        e.add_report(rep(3));
+    }
+    if k >= 4 {
+        e.add_report(rep(4));
+    }
+    match e.into_pair() {
+        Some([a, b]) => {
+            assert!(k == 2);
+            assert!(tag(&a) == 1 && tag(&b) == 2);
+        }
+        None => assert!(k != 2),
+    }
+}
+
+fn prf(mk: u64, t: u8) -> PrfHybridReport<BA8, BA3> {
+    PrfHybridReport {
+        match_key: mk,
+        value: Replicated::new(BA3::ZERO, BA3::ZERO),
+        breakdown_key: Replicated::new(BA8::truncate_from(u128::from(t)), BA8::ZERO),
+    }
+}
+
+/// BOUNDED (<= 3 reports, match keys in {0,1}): the grouping over the real BTreeMap returns one pair per key
+/// that occurs exactly twice, keys ascending, each pair in arrival order.
+#[kani::proof]
+#[kani::unwind(6)]
+#[kani::solver(kissat)]
+fn c01_group_pairs_small() {
+    let n: usize = kani::any();
+    kani::assume(n <= 3);
+    let keys: [u64; 3] = kani::any();
+    kani::assume(keys[0] < 2 && keys[1] < 2 && keys[2] < 2);
+    let mut v = Vec::with_capacity(3);
+    let mut count = [0usize; 2];
+    let mut first = [0u8; 2];
+    let mut second = [0u8; 2];
+    for i in 0..3 {
+        if i < n {
+            let k = keys[i] as usize;
+            if count[k] == 0 {
+                first[k] = i as u8 + 1;
+            } else if count[k] == 1 {
+                second[k] = i as u8 + 1;
+            }
+            count[k] += 1;
+            v.push(prf(keys[i], i as u8 + 1));
+        }
+    }
+    kani::cover!(n == 3 && count[0] == 2);
+    kani::cover!(n == 2 && count[1] == 2);
+    let out = group_report_pairs_ordered(v);
+    let expect = usize::from(count[0] == 2) + usize::from(count[1] == 2);
+    assert!(out.len() == expect);
+    if expect == 1 {
+        let k = if count[0] == 2 { 0 } else { 1 };
+        assert!(tag(&out[0][0]) == u128::from(first[k]) && tag(&out[0][1]) == u128::from(second[k]));
+    }
+}
 
 #[cfg(test)]
 include!(concat!(env!("IPA_VERIF_DIR"), "/.build/playback/agg.rs"));
